@@ -14,7 +14,7 @@ Definition cols_of (A : crs) (i : nat) : list nat := row_cols (nth i (rows A) []
 
 (* 1. levels: rows are visited in sweep order.  First loop over the row: the already-swept
    neighbours of the row's own pattern (forward: skip c >= i; backward: skip c <= i) give
-   l = max(l, level[c]+1).  Second loop (the fix f214b60): the neighbours that are swept
+   l = max(l, level[c]+1).  Second loop (the fix dff00c6): the neighbours that are swept
    LATER (forward: c > i) get level[c] = max(level[c], l+1). *)
 Definition gs_deps (forward : bool) (A : crs) (i : nat) : list nat :=
   filter (fun c => if forward then Nat.ltb c i else Nat.ltb i c) (cols_of A i).
@@ -26,7 +26,7 @@ Definition gs_levels (forward : bool) (A : crs) : list nat :=
 Definition gs_schedule (forward : bool) (A : crs) (nt : nat) : rsched :=
   schedule_of_levels nt (gs_levels forward A).
 
-(* HISTORICAL (documentation only): the level rule before the fix f214b60 looked only at
+(* HISTORICAL (documentation only): the level rule before the fix dff00c6 looked only at
    the row's own already-swept neighbours.  For structurally non-symmetric patterns it
    violates the property (SchedProofs.gs_schedule_old_race_refuted). *)
 Definition gs_levels_old (forward : bool) (A : crs) : list nat :=
